@@ -23,14 +23,20 @@ async fn completes_now<T>(h: &mut JoinHandle<T>, store: &mut Store) -> Option<T>
 
 /// Executable mirror of C16 over one operation sequence: reads see the latest write; a notify-read completes at once
 /// if the key was written earlier, otherwise on the first later write - for every waiter.
-async fn run_ops(ops: &[(u8, u8, u8)], tag: &str) -> Result<(), String> {
+/// `burst` > 0: before every operation another handle issues that many writes on unrelated keys, so the operation is
+/// issued against a full command queue (capacity 100) - the "several concurrent handles" part of the quantifier.
+async fn run_ops(ops: &[(u8, u8, u8)], tag: &str, burst: usize) -> Result<(), String> {
     let path = format!(".db_verif_replay_store_{}", tag);
     let _ = fs::remove_dir_all(&path);
     let mut store = Store::new(&path).unwrap();
     let mut model: Model<Vec<u8>, Vec<u8>> = Model::new();
     let mut waiting: Vec<(Vec<u8>, JoinHandle<Vec<u8>>)> = Vec::new();
+    let mut other = store.clone();
     for (n, (op, k, v)) in ops.iter().enumerate() {
         let key = vec![*k];
+        for i in 0..burst {
+            other.write(vec![254u8, i as u8], vec![n as u8]).await;
+        }
         match op % 3 {
             0 => {
                 let value = vec![*v, n as u8];
@@ -100,8 +106,14 @@ async fn replay_c16_op_sequences() {
     }
     let mut failures = Vec::new();
     for (i, seq) in sequences.iter().enumerate() {
-        if let Err(e) = run_ops(seq, &i.to_string()).await {
-            failures.push(format!("ops {:?}: {}", seq.iter().map(|(o, k, _)| (["write", "read", "notify"][(*o % 3) as usize], *k)).collect::<Vec<_>>(), e));
+        // every third sequence (and the three hand-written ones a second time) runs behind a backlog
+        let burst = if i % 3 == 2 { 130 } else { 0 };
+        let mut r = run_ops(seq, &i.to_string(), burst).await;
+        if r.is_ok() && i < 3 {
+            r = run_ops(seq, &format!("{}b", i), 130).await;
+        }
+        if let Err(e) = r {
+            failures.push(format!("backlog {} ops {:?}: {}", burst.max(if i < 3 { 130 } else { 0 }), seq.iter().map(|(o, k, _)| (["write", "read", "notify"][(*o % 3) as usize], *k)).collect::<Vec<_>>(), e));
         }
     }
     for f in failures.iter().take(4) { println!("FAILING-INPUT property=C16 {}", f); }
